@@ -758,7 +758,7 @@ def make_case(cid, body, inject, name="r1", desc="d one", sal=3, rng=None, fancy
     fix_neg_atom_pos(body)
     meta = {"name": name, "desc": desc, "sal": sal}
     return {"id": cid, "text": pr.text(), "rule": name, "inject": inject, "tree": True, "body": body, "meta": meta,
-            "expect_tree": Dumper(meta, fixed_pos).rule(body)}
+            "expect_tree": Dumper(meta, fixed_pos).rule(body), "rules_ast": list(prelude or []) + [(name, desc, sal, body)]}
 
 
 def fix_neg_atom_pos(node):
@@ -779,9 +779,93 @@ def fix_neg_atom_pos(node):
 
 
 HEADER = """From Coq Require Import Ascii String List ZArith Bool Floats.
-From GV Require Import Lang.Value Lang.Syntax Lang.Store Lang.Sem Lang.Check.
+From GV Require Import Lang.Value Lang.Syntax Lang.Store Lang.Sem Lang.Check Lang.Reader Lang.ReaderCheck.
 Import ListNotations.
 """
+
+
+# ---------------------------------------------------------------- the reader model (Lang/Reader.v): text -> tree inside Coq
+REAL_RE = re.compile(r"(?:\d+)?\.\d+(?:[eE]-?\d+)?|\d+\.[eE]-?\d+|\d+[eE]-?\d+")
+
+
+def coq_text(s):
+    """A Coq string term for an arbitrary text: a literal when every character is printable ASCII, newline or tab."""
+    if all(c in "\n\t" or 32 <= ord(c) < 127 for c in s):
+        return coq_str(s)
+    return "(sb %s)" % coq_list([str(b) for b in s.encode("utf-8", "surrogateescape")])
+
+
+def coq_reals(text):
+    """the oracle table of Reader.read_text: every substring that can be a REAL_LITERAL token (an over-approximation), with
+    and without a sign, converted as CoqEmit converts the real constants of the printer's tree (python float())"""
+    out, seen = [], set()
+    for m in REAL_RE.finditer(text):
+        for lit in (m.group(0), "-" + m.group(0)):
+            if lit in seen:
+                continue
+            seen.add(lit)
+            try:
+                f = float(lit)
+            except ValueError:
+                continue
+            if f != f or f in (float("inf"), float("-inf")):
+                continue            # strconv.ParseFloat reports a range error: outside the table (the reader answers RUnsup)
+            tv = tv_float("f64", f)
+            me = (0, 0) if tv["c"] != "fin" else (int(tv["m"]), tv.get("e", 0))
+            out.append("(%s, (%s, %s))" % (coq_str(lit), coq_z(me[0]), coq_z(me[1])))
+    return coq_list(out)
+
+
+def coq_rules_ast(rules_ast):
+    em = CoqEmit(True)
+    return coq_list(["(mkRule (mkMeta %s %s %s) %s)" % (coq_str(n), coq_str(d or ""), coq_z(s or 0), em.block(b)) for (n, d, s, b) in rules_ast])
+
+
+def coq_rcase(cid, text, expect):
+    """expect: ("tree", rules_ast) | ("meta", [(name, desc, sal)]) | ("accept",) | ("reject",)"""
+    if expect[0] == "tree":
+        x = "(XTree %s)" % coq_rules_ast(expect[1])
+    elif expect[0] == "meta":
+        x = "(XMeta %s)" % coq_list(["(mkMeta %s %s %s)" % (coq_text(n), coq_text(d), coq_z(s)) for n, d, s in expect[1]])
+    else:
+        x = "XAccept" if expect[0] == "accept" else "XReject"
+    return "(mkRC %s %s %s %s)" % (coq_nat(cid), coq_text(text), coq_reals(text), x)
+
+
+RCODES = {1: "the reader model (Lang/Reader.v: lexer + grammar + listener checks, evaluated inside Coq on the text itself) builds a different tree from the listener",
+          2: "the reader model accepts the text, the builder rejects it",
+          3: "the reader model rejects the text, the builder accepts it",
+          4: "the reader model ran out of fuel"}
+
+
+def report_reader(run, pid, mism, text_of):
+    """mism: [(id, code)]. Removes the code-7 entries (the reader model and the printer disagree on a text: two parts of the MODEL),
+    and — when nothing concrete has been reported — reports the first as a broken correspondence without a failing input.
+    Call it AFTER the concrete disagreements have been reported. Returns the other entries."""
+    rd = [m for m in mism if m[1] == 7]
+    if rd and not run.violations:
+        text = text_of(rd[0][0])
+        run.report({"kind": "correspondence", "symptom": "reader"}, {"correspondence": "Lang/ReaderCheck.v rmismatches rcases = [] (reader model vs. the tree the listener built, via the printer's tree)",
+                                                                     "text": text, "disagreement": LCODES[7]},
+                   "%s: %s — rule text: %s" % (pid, LCODES[7], text.replace("\n", " | ")[:300]), no_input=True)
+    return [m for m in mism if m[1] != 7]
+
+
+def evaluate_reader(tag, rcases, shard=200):
+    """rcases: list of Coq rcase terms -> ([(id, code)], number outside the model domain)"""
+    parts = [rcases[i::max(1, (len(rcases) + shard - 1) // shard)] for i in range(max(1, (len(rcases) + shard - 1) // shard))]
+
+    def one(ip):
+        i, part = ip
+        body = "Definition rcases : list rcase := %s.\nDefinition RM := rmismatches rcases.\nDefinition RU := runsup rcases.\n" % coq_list(part, per_line=True)
+        res = coq_eval_cases("cases_%s_rd%d" % (tag, i), HEADER, body, ["RM", "RU"])
+        return [tuple(t) for t in parse_nat_tuples(res["RM"])], int(re.findall(r"\d+", res["RU"])[0])
+    mm, unsup = [], 0
+    for r, u in parallel_map(one, list(enumerate(parts))):
+        mm += r
+        unsup += u
+    return mm, unsup
+
 
 
 def coq_lcase(c, o, fixed_pos=True):
@@ -842,7 +926,8 @@ LCODES = {0: "the listener-built tree (shape, operators, operands or source posi
           3: "positions cited by the error message differ",
           4: "calls received by the injected functions (order, arguments, dynamic argument types) differ",
           5: "host objects after the call differ",
-          6: "the text does not compile"}
+          6: "the text does not compile",
+          7: "the reader model (Lang/Reader.v: lexer, grammar and listener checks evaluated inside Coq on the text itself) reads the text differently from the listener"}
 
 
 def evaluate_lang(tag, cases, obs, fixed_pos=True, contained=True):
@@ -869,8 +954,11 @@ def evaluate_lang(tag, cases, obs, fixed_pos=True, contained=True):
         i, part = ip
         body = "Definition cases : list lcase := %s.\nDefinition M := mismatches %s cases.\n" % (
             coq_list(["(" + coq_lcase(c, byid[c["id"]], fixed_pos) + ")" for c in part], per_line=True), coq_bool(contained))
-        res = coq_eval_cases("cases_%s_%d" % (tag, i), HEADER, body, ["M"])
-        return [tuple(t) for t in parse_nat_tuples(res["M"])]
+        # the same texts read by the reader model: its tree must be the printer's (= the listener's, code 0)
+        rc = [coq_rcase(c["id"], c["text"], ("tree", c["rules_ast"])) for c in part if c.get("rules_ast") and not c.get("reinjected")]
+        body += "Definition rcases : list rcase := %s.\nDefinition RM := rmismatches rcases.\n" % coq_list(rc, per_line=True)
+        res = coq_eval_cases("cases_%s_%d" % (tag, i), HEADER, body, ["M", "RM"])
+        return [tuple(t) for t in parse_nat_tuples(res["M"])] + [(cid, 7) for cid, _ in parse_nat_tuples(res["RM"])]
     for r in parallel_map(one, list(enumerate(parts))):
         out += r
     return out
@@ -1202,7 +1290,7 @@ class StmtGen:
 
 
 # ---------------------------------------------------------------- common check flow for the rule-level family
-SYMPTOM_L = {0: "tree", 1: "class", 2: "value", 3: "cites", 4: "calls", 5: "store", 6: "compile"}
+SYMPTOM_L = {0: "tree", 1: "class", 2: "value", 3: "cites", 4: "calls", 5: "store", 6: "compile", 7: "reader"}
 
 
 def lang_check(run, pid, make_cases, rule_text, assumptions, nontrivial, focus_codes=None, classify=None, extra=None):
@@ -1231,7 +1319,7 @@ def lang_check(run, pid, make_cases, rule_text, assumptions, nontrivial, focus_c
     ob = {o["id"]: o for o in obs}
     run.log("compared inside Coq: %d disagreement(s)" % len(mism))
     reported = {}
-    for cid, code in mism:
+    for cid, code in [m for m in mism if m[1] != 7]:
         c, o = byid[cid], ob[cid]
         sig = {"kind": "lang-case", "symptom": SYMPTOM_L[code]}
         if classify:
@@ -1250,6 +1338,7 @@ def lang_check(run, pid, make_cases, rule_text, assumptions, nontrivial, focus_c
         run.report(sig, {"text": c["text"], "inject": c["inject"], "rule": c["rule"], "reinject": bool(c.get("reinjected")), "first_inject": c.get("first_inject"), "observation": {k: o.get(k) for k in ("class", "ret", "cites", "calls", "store", "errmsg", "compile")},
                          "disagreement": LCODES[code]},
                    "%s: %s — rule text: %s%s" % (pid, LCODES[code], c["text"].replace("\n", " | ")[:400], exp))
+    report_reader(run, pid, mism, lambda i: byid[i]["text"])
     if pid in ("C02", "C09", "C11", "C15", "C18", "C20") and ok:
         interp_facts_report(run, pid, bool(run.violations))
     extra_cov = {}
@@ -1319,7 +1408,7 @@ def make_multi_case(cid, rules, inject, rng=None, fancy=False, twice=False):
         pr.p_rule(n, d, s, b)
         fix_neg_atom_pos(b)
     order = sorted(rules, key=lambda r: -r[2])
-    return {"id": cid, "text": pr.text(), "rule": order[0][0], "inject": inject, "tree": False, "multi": order, "twice": twice}
+    return {"id": cid, "text": pr.text(), "rule": order[0][0], "inject": inject, "tree": False, "multi": order, "twice": twice, "rules_ast": list(rules)}
 
 
 def coq_mcase(c, o, init_dumps=None, cid=None):
